@@ -2,6 +2,7 @@ package c06
 
 import (
 	"math/big"
+	"strings"
 
 	sdk "github.com/cosmos/cosmos-sdk/types"
 
@@ -32,7 +33,6 @@ func narrow(p amm.PoolInfo) int64 {
 // repeated, an allocation in the incentive-only denoms, a position created after trades.
 func (r *run) corpus(ctx sdk.Context) error {
 	p := r.w.Pools[2]
-	gh := r.gh[p.ID]
 	z := bi(0)
 	mk := func(s int, lo, up int64, b, q int64, tag string) amm.Op {
 		return amm.Op{Kind: "create", Sender: s, Lower: lo, Upper: up, Base: bi(b), Quote: bi(q), MinBase: z, MinQuote: z, Tag: "corpus/" + tag}
@@ -98,20 +98,117 @@ func (r *run) corpus(ctx sdk.Context) error {
 		cl(0, "claim-A-after-failed-allocation", a),
 		{Kind: "claim", Sender: 0, Pids: []uint64{}, Tag: "corpus/claim-empty"},
 	}
+	r.runCorpus(ctx, p, ops)
+	r.corpusGaps(ctx)
+	r.corpusZeroFee(ctx)
+	return nil
+}
+
+// runCorpus executes scripted operations; amounts / ticks that depend on the state reached are fixed
+// when the case runs (tags corpus/cross/, corpus/land/, corpus/cur/).
+func (r *run) runCorpus(ctx sdk.Context, p amm.PoolInfo, ops []amm.Op) {
+	gh := r.gh[p.ID]
 	for _, o := range ops {
-		if len(o.Tag) > 13 && o.Tag[:13] == "corpus/cross/" {
+		if strings.HasPrefix(o.Tag, "corpus/cross/") {
 			if a := r.crossAmount(ctx, p, o.Sender, o.ExactIn, o.DenomIn); a != nil {
 				o.Amount = a
 			}
 		}
-		if len(o.Tag) > 11 && o.Tag[:11] == "corpus/cur/" {
+		if strings.HasPrefix(o.Tag, "corpus/land/") {
+			if a := r.landAmount(ctx, p, o.Sender, o.DenomIn); a != nil {
+				o.Amount = a
+			}
+		}
+		if o.Kind == "decrease" && strings.Contains(o.Tag, "withdraw") { // the whole liquidity, whatever it is by now
+			for _, q := range r.w.PositionsSorted(ctx, p) {
+				if q.Id == o.Pid {
+					o.Liq = amm.Raw(q.Liquidity)
+				}
+			}
+		}
+		if strings.HasPrefix(o.Tag, "corpus/cur/") {
 			pool, _, _ := r.w.K.GetPool(ctx, p.ID)
 			o.Lower += pool.CurrentTick
 			o.Upper += pool.CurrentTick
 		}
 		r.doCase(ctx, p, o, gh, false)
 	}
-	return nil
+}
+
+// corpusGaps: swaps whose FIRST step reaches a position's bound before any fee has been charged,
+// after earlier trades have produced global fee growth: (a) the price rests in a gap without
+// liquidity (the only in-range position was withdrawn while disjoint positions remain), (b) the price
+// rests exactly on an initialised tick (the previous swap ended there).  The position entered then
+// claims: it must not inherit growth of trades made while it was out of range.
+func (r *run) corpusGaps(ctx sdk.Context) {
+	p := r.w.Pools[1]
+	z := bi(0)
+	mk := func(s int, lo, up int64, tag string) amm.Op {
+		return amm.Op{Kind: "create", Sender: s, Lower: lo, Upper: up, Base: bi(1_000_000_000), Quote: bi(1_000_000_000), MinBase: z, MinQuote: z, Tag: "corpus/gap/" + tag}
+	}
+	swX := func(s int, exactIn bool, din int, tag string) amm.Op {
+		return amm.Op{Kind: "swap", Sender: s, ExactIn: exactIn, DenomIn: din, Amount: bi(1_000_000), Tag: "corpus/cross/gap/" + tag}
+	}
+	land := func(s int, din int, tag string) amm.Op {
+		return amm.Op{Kind: "swap", Sender: s, ExactIn: true, DenomIn: din, Amount: bi(1_000_000), Tag: "corpus/land/" + tag}
+	}
+	cl := func(s int, tag string, ids ...uint64) amm.Op {
+		return amm.Op{Kind: "claim", Sender: s, Pids: ids, Tag: "corpus/gap/" + tag}
+	}
+	first := r.nextID(ctx)
+	a, v, b := first, first+1, first+2
+	r.runCorpus(ctx, p, []amm.Op{
+		mk(0, -10, 10, "A-middle"),
+		mk(1, -200, -100, "V-below-disjoint"),
+		mk(2, 100, 200, "B-above-disjoint"),
+		swX(0, true, 0, "down-out-of-A-through-the-gap-into-V"),
+		swX(1, true, 1, "up-out-of-V-through-the-gap-into-A"),
+		cl(0, "claim-A", a),
+		{Kind: "decrease", Sender: 0, Pid: a, Liq: bi(0), Tag: "corpus/gap/withdraw-A-leaving-a-gap"},
+		swX(2, false, 1, "exact-out-up-from-the-gap-into-B"),
+		cl(2, "claim-B-just-entered", b),
+		cl(1, "claim-V", v),
+		swX(0, true, 1, "up-inside-B"),
+		land(1, 0, "down-onto-lower-tick-of-B"),
+		swX(2, true, 1, "exact-in-up-from-the-resting-tick-into-B"),
+		cl(2, "claim-B-entered-from-resting-tick", b),
+		land(1, 0, "down-onto-lower-tick-of-B-again"),
+		swX(0, false, 0, "exact-out-down-from-the-resting-tick-through-the-gap-into-V"),
+		cl(1, "claim-V-entered-from-the-gap", v),
+		cl(2, "claim-B", b),
+	})
+}
+
+// corpusZeroFee: (c) a pool with fee rate 0 that only receives incentives: every tick is crossed
+// without the swap having accrued any fee growth.
+func (r *run) corpusZeroFee(ctx sdk.Context) {
+	p := r.w.Pools[3]
+	z := bi(0)
+	mk := func(s int, lo, up int64, tag string) amm.Op {
+		return amm.Op{Kind: "create", Sender: s, Lower: lo, Upper: up, Base: bi(1_000_000_000), Quote: bi(1_000_000_000), MinBase: z, MinQuote: z, Tag: "corpus/zerofee/" + tag}
+	}
+	swX := func(s int, exactIn bool, din int, tag string) amm.Op {
+		return amm.Op{Kind: "swap", Sender: s, ExactIn: exactIn, DenomIn: din, Amount: bi(1_000_000), Tag: "corpus/cross/zerofee/" + tag}
+	}
+	al := func(c0, c1, c2, c3 int64) amm.Op {
+		return amm.Op{Kind: "allocate", Sender: 3, Coins: []*big.Int{bi(c0), bi(c1), bi(c2), bi(c3)}, Tag: "corpus/zerofee/allocate"}
+	}
+	cl := func(s int, tag string, ids ...uint64) amm.Op {
+		return amm.Op{Kind: "claim", Sender: s, Pids: ids, Tag: "corpus/zerofee/" + tag}
+	}
+	first := r.nextID(ctx)
+	pp, q := first, first+1
+	r.runCorpus(ctx, p, []amm.Op{
+		mk(0, -10, 10, "P-in-range"),
+		mk(1, 10, 30, "Q-adjacent-above"),
+		al(500_000, 700_000, 1_000_003, 999),
+		swX(2, true, 1, "up-across-10-into-Q"),
+		cl(1, "claim-Q-just-entered", q),
+		al(300_000, 0, 77, 5_000_000),
+		swX(2, false, 0, "exact-out-down-across-10-into-P"),
+		cl(0, "claim-P", pp),
+		cl(1, "claim-Q", q),
+	})
 }
 
 // crossAmount sizes a swap so that it crosses exactly the nearest initialised tick in its direction
@@ -182,6 +279,49 @@ func (r *run) crossAmount(ctx sdk.Context, p amm.PoolInfo, sender int, exactIn b
 	return amt
 }
 
+// restingTick: does the pool's price sit exactly on the price of an initialisable tick next to the cursor?
+func (r *run) restingTick(ctx sdk.Context, p amm.PoolInfo) (int64, bool) {
+	pool, _, _ := r.w.K.GetPool(ctx, p.ID)
+	if pool.CurrentSqrtPrice == "" {
+		return 0, false
+	}
+	tp := lptypes.TickParams{PriceRatio: p.Ratio, BaseOffset: p.Offset}
+	for _, t := range []int64{pool.CurrentTick + 1, pool.CurrentTick} {
+		if sp, err := lptypes.TickToSqrtPrice(t, tp); err == nil && sp.String() == pool.CurrentSqrtPrice {
+			return t, true
+		}
+	}
+	return 0, false
+}
+
+// landAmount: an exact-in amount with which a swap ends exactly on the nearest initialised tick in
+// its direction (the amount the keeper itself computes for crossing one tick, or a neighbour of it).
+func (r *run) landAmount(ctx sdk.Context, p amm.PoolInfo, sender, din int) (amt *big.Int) {
+	defer func() {
+		if recover() != nil {
+			amt = nil
+		}
+	}()
+	maxIn, _, err := r.w.K.ComputeMaxInAmtGivenMaxTicksCrossed(ctx, p.ID, p.Denoms[din], 1)
+	if err != nil || !maxIn.Amount.IsPositive() {
+		return nil
+	}
+	for _, d := range []int64{0, 1, -1, 2, 3} {
+		a := new(big.Int).Add(maxIn.Amount.BigInt(), bi(d))
+		if a.Sign() <= 0 {
+			continue
+		}
+		c, _ := ctx.CacheContext()
+		if _, err := r.w.Exec(c, p, amm.Op{Kind: "swap", Sender: sender, ExactIn: true, DenomIn: din, Amount: a}); err != nil {
+			continue
+		}
+		if _, ok := r.restingTick(c, p); ok {
+			return a
+		}
+	}
+	return nil
+}
+
 func (r *run) nextID(ctx sdk.Context) uint64 {
 	n, err := r.w.K.GetPositionCount(ctx)
 	if err != nil {
@@ -216,6 +356,61 @@ func (r *run) genOp(ctx sdk.Context, p amm.PoolInfo) amm.Op {
 		return amm.Op{Kind: "create", Sender: sender, Lower: -nw * int64(2+rd.Intn(4)), Upper: nw * int64(2+rd.Intn(4)), Base: base, Quote: quote, MinBase: z, MinQuote: z, Tag: "first"}
 	}
 	pick := func() lptypes.Position { return poss[rd.Intn(len(poss))] }
+	sized := func(exactIn bool, din int) *big.Int { // cross the nearest tick, else 5 % of the reserves
+		if a := r.crossAmount(ctx, p, sender, exactIn, din); a != nil {
+			return a
+		}
+		res := w.BalInts(ctx, p, lptypes.NewPoolAddress(p.ID))
+		a := new(big.Int).Div(res[1-din], bi(20))
+		if exactIn && res[din].Sign() > 0 {
+			a = new(big.Int).Div(res[din], bi(20))
+		}
+		if a.Sign() == 0 {
+			a = bi(1000)
+		}
+		return a
+	}
+	// follow-ups planned by the previous step on this pool
+	if plan := r.plan[p.ID]; plan != "" {
+		delete(r.plan, p.ID)
+		switch plan {
+		case "reverse-0", "reverse-1": // the price rests exactly on a tick: trade back across it
+			if _, ok := r.restingTick(ctx, p); ok {
+				din := int(plan[len(plan)-1] - '0')
+				exactIn := rd.Bool()
+				r.plan[p.ID] = "claim-around"
+				return amm.Op{Kind: "swap", Sender: sender, ExactIn: exactIn, DenomIn: din, Amount: sized(exactIn, din), Tag: "swap/from-resting-tick"}
+			}
+		case "claim-around": // the positions bounded by / next to the price claim
+			q := pick()
+			for _, o := range poss {
+				if o.LowerTick <= cur+1 && cur-1 <= o.UpperTick && rd.Bool() {
+					q = o
+				}
+			}
+			return amm.Op{Kind: "claim", Sender: w.UserIndex(q.Address), Pids: []uint64{q.Id}, Tag: "claim/after-entering"}
+		}
+	}
+	// the price rests in a gap without liquidity (positions exist, none in range): trade out of it, so the
+	// first step of the swap reaches a position's bound without having charged any fee
+	if amm.Raw(pool.CurrentTickLiquidity).Sign() == 0 && rd.Chance(3, 4) {
+		din := rd.Intn(2)
+		exactIn := rd.Bool()
+		r.plan[p.ID] = "claim-around"
+		return amm.Op{Kind: "swap", Sender: sender, ExactIn: exactIn, DenomIn: din, Amount: sized(exactIn, din), Tag: "swap/from-gap"}
+	}
+	// exactly one position in range and others beside it: now and then withdraw it, leaving a gap
+	if len(poss) >= 2 && rd.Chance(1, 12) {
+		var in []lptypes.Position
+		for _, o := range poss {
+			if o.LowerTick <= cur && cur < o.UpperTick {
+				in = append(in, o)
+			}
+		}
+		if len(in) == 1 {
+			return amm.Op{Kind: "decrease", Sender: w.UserIndex(in[0].Address), Pid: in[0].Id, Liq: amm.Raw(in[0].Liquidity), Tag: "decrease-all/leaves-gap"}
+		}
+	}
 	k := rd.Intn(100)
 	if len(poss) < 3 && k >= 40 && rd.Bool() {
 		k = 0 // get a few overlapping positions first
@@ -322,6 +517,11 @@ func (r *run) genOp(ctx sdk.Context, p amm.PoolInfo) amm.Op {
 			amt, tag = bi(1), tag+"/1"
 		case 1:
 			amt, tag = bi(int64(2+rd.Intn(2000))), tag+"/small"
+		case 7, 8: // end exactly on the nearest initialised tick; the next step on this pool trades back across it
+			if a := r.landAmount(ctx, p, sender, din); a != nil {
+				r.plan[p.ID] = []string{"reverse-1", "reverse-0"}[din]
+				return amm.Op{Kind: "swap", Sender: sender, ExactIn: true, DenomIn: din, Amount: a, Tag: "swap/to-tick"}
+			}
 		case 2, 3, 4, 5, 6: // cross exactly the nearest initialised tick and stop just beyond it
 			if a := r.crossAmount(ctx, p, sender, exactIn, din); a != nil {
 				amt, tag = a, tag+"/cross-one"
